@@ -30,6 +30,9 @@ type Rule struct {
 	MNOP   bool   `json:"mnop,omitempty"`
 	Trig   uint32 `json:"trig,omitempty"`
 	Period uint32 `json:"period,omitempty"` // seconds
+	// Update URR: leave the Measurement Method / Measurement Information IE out (= unchanged)
+	NoMethod bool `json:"no_method_ie,omitempty"`
+	NoInfo   bool `json:"no_info_ie,omitempty"`
 }
 
 // Op is one step of a history.
@@ -153,7 +156,10 @@ func (r Rule) UpdateIE() *IE {
 		}
 		return Grp(TUpdateQER, c...)
 	case "URR":
-		c := []*IE{URRID(uint32(r.ID)), MeasMethod(r.Method)}
+		c := []*IE{URRID(uint32(r.ID))}
+		if !r.NoMethod {
+			c = append(c, MeasMethod(r.Method))
+		}
 		if r.Trig != 0 {
 			c = append(c, RepTrig(r.Trig, 3))
 		}
@@ -164,7 +170,12 @@ func (r Rule) UpdateIE() *IE {
 		if r.MNOP {
 			mi = 0x10
 		}
-		c = append(c, MeasInfo(mi))
+		if !r.NoInfo {
+			c = append(c, MeasInfo(mi))
+		}
+		if r.NoMethod && r.NoInfo {
+			c = append(c, VolThresh(1, 4242, 0, 0)) // an update that only moves the threshold
+		}
 		return Grp(TUpdateURR, c...)
 	case "BAR":
 		return Grp(TUpdateBAR, BARID(uint8(r.ID)), DDNDelay(3))
